@@ -52,7 +52,7 @@ func c05CancelFlagMonotone(e *Env, rule string) {
 						val = x.Call.Args[len(x.Call.Args)-1]
 					}
 				}
-				if fa == nil || val == nil || typesName(derefT(fa.X.Type())) != "Scheduler" || ir.FieldNameOf(fa.X.Type(), fa.Field) != fld {
+				if fa == nil || val == nil || !isSchedOwner(fa.X.Type()) || ir.FieldNameOf(fa.X.Type(), fa.Field) != fld {
 					continue
 				}
 				// the zero value written by the literal that creates the scheduler is its initial state
